@@ -10,7 +10,8 @@ import sys
 SMARTS_PANEL = ['[C;D3]', 'C=O', 'c1ccccc1', '[N;h2]', 'CO', 'C(=O)O', '[#6]-[#7]', 'c:n', 'C=C', 'C#N', '[O;D1]', 'S(=O)=O',
                 'CCN', 'c-c', '[N+]', '[O-]', 'C1CC1', 'N-C=O', 'Cl', 'F', '[C;r5]', 'C~C~C', 'cc(c)N', '[N;D3]', 'CS',
                 '[N;a;h1]', 'C(C)(C)C', '[#8]=[#6]-[#8]', 'Br', 'P',
-                '[#6,#7]-[#8]', '[C,N;D2]', '[#8,#16]=[#6]', '[#7,#8;h1]', '[#6]-[#6,#7]-[#6]', '[F,Cl,Br]']
+                '[#6,#7]-[#8]', '[C,N;D2]', '[#8,#16]=[#6]', '[#7,#8;h1]', '[#6]-[#6,#7]-[#6]', '[F,Cl,Br]',
+                '[A]C[A]N', '[A]1CN1', '[C,N]CO', '[A]CCO', '[A]~[#6]~[#7]', '[O,S]C(N)=O', '[A]c1ccccc1', '[C,O]CN.[A]Cl']
 _panel = {}
 
 
